@@ -284,9 +284,10 @@ def run(tier, seed, log):
     rep.coverage = engine_g.merge_coverage(
         results,
         "every ordered multigraph of each space x 2 vertex-class assignments (all Vertex; Vertex/VA/VB) x every "
-        "membership list (subsets, reversed, empty) x 2 option tables (title $id / formatted, per-class type and "
-        "title, custom arrow ends for an edge subclass); output parsed back into declaration and relation "
-        "multisets; non-trivial = non-empty universe and at least one link")
+        "membership list (subsets, reversed, empty) x 3 option tables (title $id / formatted, per-class type and "
+        "title, custom arrow ends for an edge subclass, a user_render_func for a vertex subclass); for one table "
+        "every rendering is preceded by two that are rejected part-way; output parsed back into declaration and "
+        "relation multisets; non-trivial = non-empty universe and at least one link")
     rep.assumptions = ["show_attrs restricted to ^i$ so attribute lines cannot look like relations",
                        "relation lines for links that leave the universe are tolerated if attributable to a "
                        "distinct existing link attached to a member (the statement only forbids lines for links "
